@@ -23,6 +23,8 @@ mod c17x;
 mod props;
 mod c16;
 mod c16dir;
+mod c18x;
+mod fwrite;
 mod c12;
 mod c15;
 mod c14;
